@@ -22,6 +22,8 @@ the customer state at the time of sending.
 import ZkVerif.Model.Customer
 import ZkVerif.Model.Schnorr
 import ZkVerif.Props.C03
+import ZkVerif.Model.ZkProofs
+import ZkVerif.Lemmas.Establish
 
 set_option linter.unusedSectionVars false
 
@@ -184,5 +186,27 @@ theorem closing_sigs_distinct (e : G1 → G2 → GT) (pk : PubKey G1 G2) (close 
   | locked st b cs =>
     simp only [Customer.close, Option.some.injEq] at h1 h2; subst h1; subst h2
     exact randomized_s1_hits_once cs (wfd _ _ hg) _ r r' hs rfl
+
+/-! ### A whole establish message determines every draw behind it -/
+
+/-- Two establish messages (same key, state, challenge) coincide only if *all* of the customer's
+draws coincide: the message is an injective function of the randomness, so with fresh independent
+draws no establish message repeats, field for field, except on the diagonal. -/
+theorem establish_message_determines_draws (pk : PubKey G1 G2) (hg : pk.g1 ≠ 0) (close : F) (ms : List F)
+    (hm : ms.length = 5) (d d' : EstDraws F) (ht : d.tsS.length = 5) (ht' : d'.tsS.length = 5) (c : F)
+    (h : estProveWith pk close ms d c = estProveWith pk close ms d' c) :
+    d.bfS = d'.bfS ∧ d.tbfS = d'.tbfS ∧ d.tsS = d'.tsS ∧ d.bfC = d'.bfC ∧ d.tbfC = d'.tbfC ∧ d.t1C = d'.t1C := by
+  simp only [estProveWith, estBuilders, srpBuilder, EstProof.mk.injEq] at h
+  obtain ⟨_, hk1, _, _, hst, hcl⟩ := h
+  have h1 := cproof_determines_draws pk.ped1 hg ms c d.bfS d.tbfS d'.bfS d'.tbfS d.tsS d'.tsS
+    (by rw [ht, hm]) (by rw [ht', hm]) hst
+  have h2 := cproof_determines_draws pk.ped1 hg (ms.set 1 close) c d.bfC d.tbfC d'.bfC d'.tbfC
+    (d.tsS.set 1 d.t1C) (d'.tsS.set 1 d'.t1C) (by simp [ht, hm]) (by simp [ht', hm]) hcl
+  refine ⟨h1.1, h1.2.1, h1.2.2, h2.1, h2.2.1, ?_⟩
+  simp only [CBuilder.mk'] at hk1
+  obtain ⟨a0, a1, a2, a3, a4, ha⟩ := list_len5 d.tsS ht
+  obtain ⟨b0, b1, b2, b3, b4, hb⟩ := list_len5 d'.tsS ht'
+  rw [ha, hb] at hk1
+  simpa using hk1
 
 end ZkVerif.C14
